@@ -1660,6 +1660,34 @@ func evalIntUnder(c *Ctx, ev *evaluator, v ssa.Value, assume map[*ssa.Parameter]
 		return evalIntUnder(c, ev, x.X, assume, depth+1)
 	case *ssa.ChangeType:
 		return evalIntUnder(c, ev, x.X, assume, depth+1)
+	case *ssa.BinOp:
+		// arithmetic on single values (a size computed from the algorithm's number instead of looked up)
+		a, ok1 := evalIntUnder(c, ev, x.X, assume, depth+1)
+		b, ok2 := evalIntUnder(c, ev, x.Y, assume, depth+1)
+		if !ok1 || !ok2 || len(a) != 1 || len(b) != 1 {
+			return nil, false
+		}
+		switch x.Op {
+		case token.ADD:
+			return []int64{a[0] + b[0]}, true
+		case token.SUB:
+			return []int64{a[0] - b[0]}, true
+		case token.MUL:
+			return []int64{a[0] * b[0]}, true
+		case token.QUO:
+			if b[0] != 0 {
+				return []int64{a[0] / b[0]}, true
+			}
+		case token.SHL:
+			if b[0] >= 0 && b[0] < 62 {
+				return []int64{a[0] << uint(b[0])}, true
+			}
+		case token.OR:
+			return []int64{a[0] | b[0]}, true
+		case token.AND:
+			return []int64{a[0] & b[0]}, true
+		}
+		return nil, false
 	}
 	return nil, false
 }
